@@ -20,6 +20,10 @@ def requests(tier, rng):
         for _ in range(2):
             L.append(K.keygen(s, bytes(rng.randrange(256) for _ in range(32))))
         L.append("@impl sign::%s::keypair none real" % s)
+        # volume on the implementation: many messages under one key (late-rejection paths of the loop are taken by about 1 message
+        # in 100; a call that does not return shows as a timeout): every signature must be produced and verify
+        n = 600 if tier == "quick" else 20000
+        L.append("@impl scan::signmany %s %s %d" % (s, K.hx(bytes(rng.randrange(256) for _ in range(32))), n))
     return L
 
 
@@ -85,6 +89,12 @@ def followup(stage, lines, model, checked, release, tier, rng):
 def violated_all(lines, model, checked, release):
     out = []
     idx = {l: i for i, l in enumerate(lines)}
+    for i, l in enumerate(lines):
+        if l.startswith("@impl scan::signmany "):
+            n = l.split()[4]
+            for prof, ans in (("checked", checked), ("wrapping", release)):
+                if ans[i] != "ok n=%s bad=-" % n and ans[i] != "timeout":
+                    out.append((i, "%s build: signing %s messages under one %s key: %s" % (prof, n, l.split()[2], ans[i][:60])))
     for e in _st["pairs"]:
         i = idx.get(e["req"])
         if i is None:
